@@ -1,7 +1,7 @@
 ------------------------------ MODULE EcsDenial ------------------------------
 (***************************************************************************)
 (* C19, last clause: a query that carried ECS or CD neither consumes nor   *)
-(* creates shared synthesised denials.                                     *)
+(* creates shared synthesised denials, even through internal sub-queries.  *)
 (*                                                                         *)
 (* One subtree of a signed zone that does not exist; the resolver position *)
 (* answers every question beneath it with a validated NXDOMAIN (the        *)
@@ -12,51 +12,114 @@
 (* consults the cut only for such trees.  Requests enter message-born or   *)
 (* wire-born: the marker "the client sent ECS" has to survive the          *)
 (* wire-born request's detachment (Chain.detachStrictContext).             *)
+(*                                                                         *)
+(* Two further dimensions (gap closing, seeded C19-r3-1 / C19-r3-3):       *)
+(*  - Shapes: what the client's subnet option looks like.  "v4" / "v6" a   *)
+(*    real prefix, "zero" family 1 with source prefix 0, "empty" the RFC   *)
+(*    7871 empty option (family 0, prefix 0, no address: dig +subnet=0).   *)
+(*    Every one of them is "a query that carried ECS"; the wire-born entry *)
+(*    recognises the option with its own byte parser (parseWireOPT), the   *)
+(*    message-born one with the library's.                                 *)
+(*  - the request tree consults the shared denial state at TWO sites: the  *)
+(*    cache's hit ladder for the client's question (front) and the Store   *)
+(*    the resolver reads for its private DS / DNSKEY sub-queries (sub).    *)
+(*    The sub site matters once the denied subtree has come to life as a   *)
+(*    signed delegation (Birth) while the cut recorded before is still     *)
+(*    there: a validating tree that gets past the front site resolves the  *)
+(*    client's question at the new zone and needs that zone's DNSKEY,      *)
+(*    which lies under the cut.  The marker must reach the Store           *)
+(*    (ContextStore.GetWithContext), or the sub-query is answered from the *)
+(*    shared cut and the tree fails on a denial it must not have seen.     *)
 (***************************************************************************)
 EXTENDS Naturals, TLC
 
 CONSTANTS Kinds,      \* {"plain", "ecs", "cd", "ecscd"}
           Borns,      \* {"msg", "wire"}
           Flags,      \* client flag sets [do, ad]: what the client asked to be told about validation
+          Shapes,     \* shapes of the client's subnet option: {"v4", "v6", "zero", "empty"}
           MaxSteps,
-          LoseMarker  \* mutant: the ECS marker does not survive the detachment of a wire-born request
+          Births,     \* may the denied subtree come to life (Birth)?  FALSE = the module before the sub site existed
+          LoseMarker, \* mutant: the ECS marker does not survive the detachment of a wire-born request
+          EmptyUnmarked,  \* mutant: the wire-born entry does not take the empty subnet option for ECS
+          SubLosesMarker  \* mutant: the resolver's private sub-queries reach the Store without the request tree's marker
 
 VARIABLES cut,        \* a shared subtree cut covering the name exists
+          alive,      \* the parent meanwhile delegates the denied name to a signed child that has the names asked for
+          keyed,      \* the new zone's DNSKEY is in the (shared, exact-match) answer cache: later trees do not look it up
           n,
-          last        \* [kind, born, f, out, ad]  out \in {"down", "synth"}, ad = AD bit of the reply  (hidden by VIEW)
+          last        \* [kind, born, f, shape, out, ad, sub]  out \in {"down", "synth", "pos", "subsynth"}; sub = the tree
+                      \* asked the Store for the new zone's DNSKEY while the cut was there  (hidden by VIEW)
 
-vars == <<cut, n, last>>
+vars == <<cut, alive, keyed, n, last>>
 
-Scoped(k, b) == k \in {"ecs", "ecscd"} /\ ~(LoseMarker /\ b = "wire")
-Bypass(k, b) == Scoped(k, b) \/ k \in {"cd", "ecscd"}
+HasEcs(k) == k \in {"ecs", "ecscd"}
+HasCd(k)  == k \in {"cd", "ecscd"}
+ShapesOf(k) == IF HasEcs(k) THEN Shapes ELSE {"none"}
+
+Scoped(k, b, s) == /\ HasEcs(k)
+                   /\ ~(LoseMarker /\ b = "wire")
+                   /\ ~(EmptyUnmarked /\ b = "wire" /\ s = "empty")
+Bypass(k, b, s) == Scoped(k, b, s) \/ HasCd(k)
+(* what the Store sees of the tree when the resolver asks it for a DS / DNSKEY (CD rides on the sub-query message) *)
+BypassSub(k, b, s) == (Scoped(k, b, s) /\ ~SubLosesMarker) \/ HasCd(k)
 
 NoFlags == [do |-> FALSE, ad |-> FALSE]
-Init == cut = FALSE /\ n = 0 /\ last = [kind |-> "none", born |-> "none", f |-> NoFlags, out |-> "none", ad |-> FALSE]
+Init == /\ cut = FALSE /\ alive = FALSE /\ keyed = FALSE /\ n = 0
+        /\ last = [kind |-> "none", born |-> "none", f |-> NoFlags, shape |-> "none", out |-> "none", ad |-> FALSE, sub |-> FALSE]
 
 (* the denial is validated either way (resolved or synthesised from the validated cut): the reply's AD bit is the
    edns layer's decision alone -- clear toward CD and toward a client that set neither DO nor AD (C06) *)
-ReplyAD(k, f) == k \notin {"cd", "ecscd"} /\ (f.do \/ f.ad)
+ReplyAD(k, f) == ~HasCd(k) /\ (f.do \/ f.ad)
 
-Ask(k, b, f) ==
+Rec(k, b, f, s, o, ad, sub) == [kind |-> k, born |-> b, f |-> f, shape |-> s, out |-> o, ad |-> ad, sub |-> sub]
+
+Ask(k, b, f, s) ==
   /\ n < MaxSteps
-  /\ IF cut /\ ~Bypass(k, b)
-       THEN /\ last' = [kind |-> k, born |-> b, f |-> f, out |-> "synth", ad |-> ReplyAD(k, f)]     \* answered from the shared cut, no upstream work
-            /\ cut' = cut
-       ELSE /\ last' = [kind |-> k, born |-> b, f |-> f, out |-> "down", ad |-> ReplyAD(k, f)]      \* resolved: a validated NXDOMAIN comes back
-            /\ cut' = (cut \/ ~Bypass(k, b))                          \* ... and is admitted only for an unscoped, CD=0 tree
   /\ n' = n + 1
+  /\ alive' = alive
+  /\ IF cut /\ ~Bypass(k, b, s)
+       THEN \* front site: answered from the shared cut, no upstream work (stale after Birth, and rightly so: shared state)
+            /\ last' = Rec(k, b, f, s, "synth", ReplyAD(k, f), FALSE)
+            /\ UNCHANGED <<cut, keyed>>
+       ELSE IF ~alive
+       THEN \* resolved: a validated NXDOMAIN comes back and is admitted only for an unscoped, CD=0 tree
+            /\ last' = Rec(k, b, f, s, "down", ReplyAD(k, f), FALSE)
+            /\ cut' = (cut \/ ~Bypass(k, b, s))
+            /\ keyed' = keyed
+       ELSE IF HasCd(k)
+       THEN \* resolved at the new zone, nothing validated: no DNSKEY is needed
+            /\ last' = Rec(k, b, f, s, "pos", FALSE, FALSE)
+            /\ UNCHANGED <<cut, keyed>>
+       ELSE IF ~keyed /\ cut /\ ~BypassSub(k, b, s)
+       THEN \* sub site: the DNSKEY sub-query is answered from the shared cut; the tree cannot validate and fails
+            /\ last' = Rec(k, b, f, s, "subsynth", FALSE, TRUE)
+            /\ UNCHANGED <<cut, keyed>>
+       ELSE \* the new zone's key is fetched (or was cached): validated positive answer
+            /\ last' = Rec(k, b, f, s, "pos", ReplyAD(k, f), ~keyed /\ cut)
+            /\ keyed' = TRUE
+            /\ cut' = cut
 
-Next == \E k \in Kinds, b \in Borns, f \in Flags : Ask(k, b, f)
+Birth ==
+  /\ Births /\ ~alive /\ n < MaxSteps
+  /\ alive' = TRUE
+  /\ n' = n + 1
+  /\ last' = Rec("none", "none", NoFlags, "none", "none", FALSE, FALSE)
+  /\ UNCHANGED <<cut, keyed>>
+
+Next == \/ \E k \in Kinds, b \in Borns, f \in Flags : \E s \in ShapesOf(k) : Ask(k, b, f, s)
+        \/ Birth
 Spec == Init /\ [][Next]_vars
 
-(* an ECS- or CD-carrying query is never answered from shared synthesised state ... *)
-NeverConsumes == [][last'.kind \in {"ecs", "cd", "ecscd"} => last'.out = "down"]_vars
+Carried(k) == k \in {"ecs", "cd", "ecscd"}
+(* an ECS- or CD-carrying query is never answered from shared synthesised state, at either site ... *)
+NeverConsumes == [][Carried(last'.kind) => last'.out \in {"down", "pos"}]_vars
 (* ... and never creates it *)
-NeverCreates  == [][last'.kind \in {"ecs", "cd", "ecscd"} => cut' = cut]_vars
+NeverCreates  == [][Carried(last'.kind) => cut' = cut]_vars
 (* C06 on every reply, synthesised ones included *)
-ADDiscipline  == [][last'.ad => (last'.kind \notin {"cd", "ecscd"} /\ (last'.f.do \/ last'.f.ad))]_vars
-(* the cut is used at all (vacuity) *)
+ADDiscipline  == [][last'.ad => (~HasCd(last'.kind) /\ (last'.f.do \/ last'.f.ad))]_vars
+(* vacuity: the cut is used at all; the sub site is passed by a marked tree while the cut is there *)
 NeverSynth == last.out # "synth"
+NeverSubPassed == ~(last.out = "pos" /\ HasEcs(last.kind) /\ last.sub)
 
-View == <<cut, n>>
+View == <<cut, alive, keyed, n>>
 =============================================================================
